@@ -181,6 +181,16 @@ def spec_check(c, out):
         lim = int(c.line.split()[2])
         if lim > 0 and any(len(b) > lim for h, b in rx):
             return "WebSocket: a message larger than RECVMAXSZ was delivered"
+        if hasattr(c, "over"):
+            got = [b for h, b in rx]
+            e = [l for l in o if l.startswith("end ")]
+            if c.over:
+                if got != c.before[:len(got)]:
+                    return "WebSocket: a fragmented message above RECVMAXSZ (or what follows it) was delivered"
+                if e and "closed=0" in e[0]:
+                    return "WebSocket: a fragmented message above RECVMAXSZ did not close the connection"
+            elif got != c.before + [c.big, c.after]:
+                return "WebSocket: a fragmented message within RECVMAXSZ was not delivered exactly"
     if c.kind == "udp":
         # every delivery is the first us_length bytes of a DATA datagram that really carries that many, in order
         dgs = [unhx(x) for x in c.line.split()[2].split(",")]
@@ -323,6 +333,30 @@ def gen_sessions(rng, tier):
             continue
         cuts = sorted(set(rng.randrange(1, len(b)) for _ in range(rng.choice([0, 1, 2])))) if len(b) > 1 else []
         add("mutated", tran, role, proto, rng.choice([0, 0, 64, DEFAULT_RCVMAX]), bytes(b), cuts, rng.choice(["w", "cw", "r"]), nexp=len(msgs))
+    # (g) a message the protocol DROPS (more hops than the TTL allows, header buffer full) -- alone, after a good one, before a
+    # good one -- and then the peer disconnects (half-close, reset) or just stays; the socket is closed inside the same
+    # sanitised process, so whatever the drop path left behind is seen when the pipe is finalised
+    for i in range(70 if q else 1400):
+        tran, role = rng.choice(TR)
+        proto = rng.choice(["rep", "rep", "xrep", "respondent", "xrespondent", "pair1"])
+        me, peer = PT[proto]
+        body = rbytes(rng, rng.choice([0, 1, 8]))
+        if proto == "pair1":
+            dropf = struct.pack(">I", rng.choice([9, 10, 100, 255])) + body
+        else:
+            dropf = b"".join(struct.pack(">I", rng.getrandbits(31)) for _ in range(rng.choice([9, 10, 10, 12, 15, 16, 17, 30]))) + body
+        shape = rng.choice(["D", "D", "GD", "DG", "GDG", "DD", "GDDG"])
+        st = sp_hdr(peer) + b"".join(frame(tran, b"", dropf if ch == "D" else valid_payload(rng, proto)) for ch in shape)
+        cuts = sorted(set(rng.randrange(1, len(st)) for _ in range(rng.choice([0, 0, 1, 2]))))
+        add("drop-disc", tran, role, proto, 0, st, cuts, rng.choice(["cw", "cw", "r", "w"]), nexp=shape.count("G"))
+    # (h) a handshake that stalls: some of the 8 bytes, then silence beyond the negotiation timeout (virtual clock, hook H4);
+    # the listener must still serve the next peer
+    for tran in ["tcp", "ipc", "sfd", "ws"] * (1 if q else 6):
+        proto = "pair0" if tran == "ws" else rng.choice(MULTI)
+        me, peer = PT[proto]
+        part = (b"GET / HTTP/1.1\r\nHost: x\r\n"[:rng.choice([0, 3, 14, 27])] if tran == "ws" else sp_hdr(peer)[:rng.choice([0, 1, 3, 7])])
+        cases.append(Line("stall", "stall", "stall %s %s %s %d %s %d %d" % (tran, proto, hx(part), rng.choice([10001, 11000, 60000]),
+                                                                       "6b" if tran == "ws" else hx(ctl_payload(proto)), me, peer)))
     # (f) single-pipe protocols: the listener must take a new peer after the hostile one was dropped
     for i in range(10 if q else 200):
         tran, role = rng.choice(TR[:4])
@@ -432,6 +466,45 @@ def gen_ws(rng, tier):
         s = b"".join(frames)
         cuts = sorted(set(rng.randrange(1, len(s)) for _ in range(rng.choice([0, 1, 2])))) if len(s) > 1 else []
         cases.append(Line("ws-frames", "wsrx", "wsrx %s %d %s %s 4 w" % (role, rcvmax, hx(s), C1.cuts_str(cuts))))
+    # RECVMAXSZ bounds the SUM of a message's fragments: 2..5 fragments, each below the limit, the sum above / exactly at /
+    # below it, control frames in between; limit small / 0 (none) / default
+    for i in range(45 if q else 900):
+        role = rng.choice("lld")
+        masked = role == "l"
+        lim = rng.choice([100, 100, 64, 10, 0, DEFAULT_RCVMAX])
+        base = lim if 0 < lim < 10000 else 100
+        nfr = rng.choice([2, 2, 3, 4, 5])
+        total = base + rng.choice([-1, 0, 0, 1, 1, 2, 20, base // 2])
+        # nfr parts, each <= base (and < base when possible), summing to total
+        parts, left = [], total
+        for k in range(nfr - 1):
+            hi = min(base - 1 if base > 1 else 1, left)
+            x = rng.randrange(0, hi + 1)
+            parts.append(x)
+            left -= x
+        if left > base:
+            # spread the rest so that no single fragment exceeds the limit
+            parts = [total // nfr] * (nfr - 1)
+            left = total - sum(parts)
+        parts.append(left)
+        if any(p > base for p in parts):
+            continue
+        data = rbytes(rng, total)
+        out, off = b"", 0
+        pre = [rbytes(rng, rng.choice([0, 3]))] if rng.random() < 0.5 else []
+        for m in pre:
+            out += C16.ws_frame(2, True, m, masked, rbytes(rng, 4))
+        for k, ln in enumerate(parts):
+            out += C16.ws_frame(2 if k == 0 else 0, k == nfr - 1, data[off:off + ln], masked, rbytes(rng, 4))
+            off += ln
+            if k < nfr - 1 and rng.random() < 0.4:
+                out += C16.ws_frame(rng.choice([9, 10]), True, rbytes(rng, rng.choice([0, 5, 125])), masked, rbytes(rng, 4))
+        tail = rbytes(rng, 2)
+        out += C16.ws_frame(2, True, tail, masked, rbytes(rng, 4))
+        cuts = sorted(set(rng.randrange(1, len(out)) for _ in range(rng.choice([0, 1, 2]))))
+        over = 0 < lim < total
+        cases.append(Line("ws-fragsum", "wsrx", "wsrx %s %d %s %s %d w" % (role, lim, hx(out), C1.cuts_str(cuts), len(pre) + 2),
+                          over=over, before=pre, big=data, after=tail))
     # truncation of a frame stream at every offset
     s = C16.ws_frame(2, False, b"He", True, b"\1\2\3\4") + C16.ws_frame(9, True, b"p", True, b"\5\6\7\x08") + \
         C16.ws_frame(0, True, b"y!", True, b"\x09\x0a\x0b\x0c") + C16.ws_frame(2, True, b"z", True, b"\1\1\1\1")
